@@ -959,7 +959,9 @@ LEVEL_TEXT = ('Machine-checked proofs (Coq) about an executable model of Smodels
               'that compares the answer sets, shown names, externals and costs of the input with those of what the implementation emitted, '
               'also through the real lpconvert binary.')
 LEVEL_NOTE = ('Trusted: Coq kernel/vm_compute, extraction+driver (cross-checked), harness, translator, the reference semantics (Sem.v / python). '
-              'The end-to-end bijection theorem is delivered as c02_equiv_partial: see notes.')
+              'Full: c02_map, c02_errors, c02_cost, c02_cost_sign, c02_rename_iso, c02_constraint_false. The end-to-end bijection of answer sets is '
+              'proved only for the fragment of plain rules (c02_equiv_partial); weight-rule split, aux atoms of outputs, externals-as-rules and the '
+              'shown-name/external corollaries are not composed (notes/C02.md) and are covered by the brute-force oracle only.')
 TECHNIQUE = 'Coq invariant/refinement proofs about an executable model + differential correspondence + brute-force semantic oracle'
 DESIGN_REF = 'DESIGN.md section 5, C02'
-READY = False
+READY = True
